@@ -247,7 +247,7 @@ func genC07(seed int64, tier string, emit func(run.Case)) {
 		}
 	}
 	// 4. random programs
-	n := tierN(tier, 7000, 400000)
+	n := tierN(tier, 7000, 250000)
 	syn := gen.ProfileSyntax
 	for i := 0; i < n; i++ {
 		q := r.Sub(i)
